@@ -354,9 +354,6 @@ Record RL (now ifexp : N) (suf : list elem) (evs : list qev) (rs : list elem)
 Lemma RL_refl now ifexp suf evs rs : RL now ifexp suf evs rs suf evs rs.
 Proof. constructor; auto. Qed.
 
-Lemma RL_stop now ifexp suf evs rs : RL now ifexp suf evs rs suf evs rs.
-Proof. apply RL_refl. Qed.
-
 Lemma RL_drop_expired now ifexp v suf evs rs suf' evs' rs' :
   expired now v = true ->
   RL now ifexp suf (evs ++ [EvDropped v DExpired]) rs suf' evs' rs' ->
@@ -832,6 +829,191 @@ Proof.
   - intros Hc Hcp. rewrite (eff_lifetime_capped ce p Hc Hcp) in *. rewrite remaining_exact by lia. lia.
 Qed.
 
+(* --- every turn of the poll loop, every connection: a PUBLISH with DUP=0 is a first transmission --- *)
+
+Definition replay_step (c now : N) (acc : conn * list out) (e : elem) : conn * list out :=
+  let '(k0, o0) := acc in
+  match e_body e with
+  | QPub m =>
+      let k1 := set_lim_held (lim_mark (m_pid m) (k_lim k0)) (k_held k0) (k_drained k0) k0 in
+      let '(k2, o2) := write_publish c k1 (aged (k_v k0 =? 5) now e (as_dup m)) in (k2, o0 ++ o2)
+  | QRel p => (set_lim_held (lim_mark p (k_lim k0)) (k_held k0) (k_drained k0) k0, o0 ++ [OSend c (KPubrel p 0 [])])
+  end.
+
+(* the replay writes PUBRELs and PUBLISHes with DUP=1 only *)
+Lemma replay_fold_out c now : forall l k0 o0 x, In x (snd (fold_left (replay_step c now) l (k0, o0))) ->
+  In x o0 \/ (exists p, x = OSend c (KPubrel p 0 [])) \/
+  exists qos ret t pl pid props, x = OSend c (KPublish true qos ret t pl pid props).
+Proof.
+  induction l as [|e r IH]; intros k0 o0 x H; cbn [fold_left] in H; [now left|].
+  unfold replay_step at 2 in H. destruct (e_body e) as [m|p] eqn:Hb.
+  - cbv zeta in H.
+    destruct (write_publish c (set_lim_held (lim_mark (m_pid m) (k_lim k0)) (k_held k0) (k_drained k0) k0)
+                            (aged (k_v k0 =? 5) now e (as_dup m))) as [k2 o2] eqn:Hw.
+    apply IH in H. destruct H as [H|H]; [|now right].
+    apply in_app_or in H. destruct H as [H|H]; [now left|]. right. right.
+    replace o2 with (snd (write_publish c (set_lim_held (lim_mark (m_pid m) (k_lim k0)) (k_held k0) (k_drained k0) k0)
+                                        (aged (k_v k0 =? 5) now e (as_dup m)))) in H by now rewrite Hw.
+    apply write_publish_out in H. destruct H as (t & props & -> & _ & _).
+    destruct (aged_fields (k_v k0 =? 5) now e (as_dup m)) as (F1 & _). rewrite F1. cbn [as_dup m_dup].
+    now do 6 eexists.
+  - apply IH in H. destruct H as [H|H]; [|now right].
+    apply in_app_or in H. destruct H as [H|[<-|[]]]; [now left|]. right. left. now exists p.
+Qed.
+
+(* one turn of the poll loop does not move the clock, and a PUBLISH with DUP=0 comes from its sending branch *)
+Lemma poll_once_cases c s s' o :
+  poll_once c s = Some (s', o) ->
+  b_now s' = b_now s /\
+  exists k q, nget c (b_conns s) = Some k /\ aget (k_cid k) (b_queues s) = Some q /\
+    ((k_drained k = true /\ exists ids, k_held k = Some ids) \/
+     (forall x, In x o -> (exists p, x = OSend c (KPubrel p 0 [])) \/
+                          exists qos ret t pl pid props, x = OSend c (KPublish true qos ret t pl pid props))).
+Proof.
+  intros H. pose proof H as H0. unfold poll_once in H.
+  destruct (nget c (b_conns s)) as [k|] eqn:Hk; [|discriminate].
+  assert (G : match aget (k_cid k) (b_queues s) with
+              | None => None
+              | Some q =>
+                  if negb (k_drained k) then
+                    let '(q', rs) := q_read_inflight (b_now s) (N.to_nat (k_max_inflight k)) q in
+                    let s1 := set_queues (aset (k_cid k) q' (b_queues s)) s in
+                    match rs with
+                    | [] => Some (upd_conn c (set_lim_held (k_lim k) (k_held k) true k) s1, [])
+                    | _ =>
+                        let '(k', o) := fold_left (replay_step c (b_now s)) rs (k, []) in
+                        let q'' := q_set (map (fun e => match e_body e with
+                                                        | QPub m => if existsb (fun r => e_tag r =? e_tag e) rs
+                                                                    then with_body (QPub (as_dup m)) e else e
+                                                        | QRel _ => e
+                                                        end) (q_l q')) (q_cur q') (q_drained q') q' in
+                        Some (upd_conn c k' (set_queues (aset (k_cid k) q'' (b_queues s1)) s1), o)
+                    end
+                  else
+                    match k_held k with
+                    | None =>
+                        let max := if k_max_inflight k <? 100 then k_max_inflight k else 100 in
+                        match lim_poll max (k_lim k) with
+                        | (l', PIds ids) => Some (upd_conn c (set_lim_held l' (Some ids) true k) s, [])
+                        | _ => None
+                        end
+                    | Some ids => poll_once c s
+                    end
+              end = Some (s', o)).
+  { destruct (aget (k_cid k) (b_queues s)) as [q|] eqn:Hq.
+    2:{ destruct (k_phase k); discriminate. }
+    destruct (negb (k_drained k)) eqn:Hdr.
+    - destruct (k_phase k); try discriminate; exact H.
+    - destruct (k_held k) as [ids|] eqn:Hh; [exact H0|]. destruct (k_phase k); try discriminate; exact H. }
+  clear H. destruct (aget (k_cid k) (b_queues s)) as [q|] eqn:Hq; [|discriminate].
+  destruct (negb (k_drained k)) eqn:Hdr.
+  - destruct (q_read_inflight (b_now s) (N.to_nat (k_max_inflight k)) q) as [q' rs]. cbv zeta in G.
+    destruct rs as [|e0 r0].
+    + inversion G; subst. split; [reflexivity|]. exists k, q. split; [reflexivity|]. split; [exact Hq|].
+      right. intros x [].
+    + destruct (fold_left (replay_step c (b_now s)) (e0 :: r0) (k, [])) as [k' o'] eqn:Hf.
+      inversion G; subst. split; [reflexivity|]. exists k, q. split; [reflexivity|]. split; [exact Hq|].
+      right. intros x Hx.
+      replace o with (snd (fold_left (replay_step c (b_now s)) (e0 :: r0) (k, []))) in Hx by now rewrite Hf.
+      apply replay_fold_out in Hx. destruct Hx as [[]|Hx]. exact Hx.
+  - apply negb_false_iff in Hdr. destruct (k_held k) as [ids|] eqn:Hh.
+    + destruct (poll_once_send _ _ _ _ _ _ _ Hk Hq Hdr Hh G) as (q' & rs & evs & k0 & _ & _ & _ & _ & Hnow).
+      split; [exact Hnow|]. exists k, q. split; [reflexivity|]. split; [exact Hq|]. left. split; [exact Hdr|]. now exists ids.
+    + cbv zeta in G. destruct (lim_poll (if k_max_inflight k <? 100 then k_max_inflight k else 100) (k_lim k)) as [l' [| | |ids]]; try discriminate.
+      inversion G; subst. split; [reflexivity|]. exists k, q. split; [reflexivity|]. split; [exact Hq|].
+      right. intros x [].
+Qed.
+
+(* what the statements below say about one PUBLISH written at time `now` to socket c *)
+Definition first_send_ok (now c : N) (k : conn) (q : queue) (c' : N) (dup : bool) (qos : N) (ret : bool) (t pl : str) (props : list prop) : Prop :=
+  exists v mv, In v (q_queued q) /\ e_body v = QPub mv /\
+    expired now v = false /\ (e_expiry v = None \/ exists d, e_expiry v = Some d /\ now <= d) /\
+    c' = c /\ dup = m_dup mv /\ qos = m_qos mv /\ ret = m_retained mv /\ pl = m_payload mv /\ (t = m_topic mv \/ t = []) /\
+    p_msgexpiry props =
+      if (k_v k =? 5) && negb (m_expiry mv =? 0)
+      then Some (remaining (m_expiry mv) ((now - e_at v) / 1000)) else None.
+
+Theorem poll_once_first_send c s s' o :
+  poll_once c s = Some (s', o) ->
+  forall c' qos ret t pl pid props, In (OSend c' (KPublish false qos ret t pl pid props)) o ->
+  exists k q, nget c (b_conns s) = Some k /\ aget (k_cid k) (b_queues s) = Some q /\
+              first_send_ok (b_now s) c k q c' false qos ret t pl props.
+Proof.
+  intros H c' qos ret t pl pid props Hin.
+  destruct (poll_once_cases _ _ _ _ H) as (_ & k & q & Hk & Hq & [(Hdr & ids & Hh)|Hrep]).
+  - exists k, q. split; [exact Hk|]. split; [exact Hq|].
+    exact (poll_first_send _ _ _ _ _ _ _ Hk Hq Hdr Hh H _ _ _ _ _ _ _ _ Hin).
+  - destruct (Hrep _ Hin) as [(p & Hx)|(q1 & r1 & t1 & pl1 & pid1 & pr1 & Hx)]; discriminate.
+Qed.
+
+(* the poll loop of one connection until it parks *)
+Theorem poll_conn_first_send c : forall fuel s s' o,
+  poll_conn fuel c s = (s', o) ->
+  b_now s' = b_now s /\
+  forall c' qos ret t pl pid props, In (OSend c' (KPublish false qos ret t pl pid props)) o ->
+  exists si k q, b_now si = b_now s /\ nget c (b_conns si) = Some k /\ aget (k_cid k) (b_queues si) = Some q /\
+                 first_send_ok (b_now s) c k q c' false qos ret t pl props.
+Proof.
+  induction fuel as [|f IH]; intros s s' o H; cbn [poll_conn] in H.
+  - inversion H; subst. split; [reflexivity|]. intros c' qos ret t pl pid props [].
+  - destruct (poll_once c s) as [[s1 o1]|] eqn:Hp.
+    2:{ inversion H; subst. split; [reflexivity|]. intros c' qos ret t pl pid props []. }
+    destruct (poll_conn f c s1) as [s2 o2] eqn:Hc. inversion H; subst s' o; clear H.
+    destruct (poll_once_cases _ _ _ _ Hp) as (Hnow & _).
+    destruct (IH _ _ _ Hc) as (Hnow2 & IH2). split; [congruence|].
+    intros c' qos ret t pl pid props Hin. apply in_app_or in Hin. destruct Hin as [Hin|Hin].
+    + assert (Hin' : In (OSend c' (KPublish false qos ret t pl pid props)) o1).
+      { destruct (nget c (b_conns s)) as [k|]; [|exact Hin]. destruct (k_phase k); try exact Hin.
+        apply filter_In in Hin. apply Hin. }
+      destruct (poll_once_first_send _ _ _ _ Hp _ _ _ _ _ _ _ Hin') as (k & q & Hk & Hq & Hok).
+      exists s, k, q. auto.
+    + destruct (IH2 _ _ _ _ _ _ _ Hin) as (si & k & q & Hsi & Hk & Hq & Hok).
+      exists si, k, q. rewrite <- Hnow. split; [congruence|]. split; [exact Hk|]. split; [exact Hq|]. exact Hok.
+Qed.
+
+(* all connections: the polling that follows every event *)
+Theorem poll_all_first_send s s' o :
+  poll_all s = (s', o) ->
+  b_now s' = b_now s /\
+  forall c' qos ret t pl pid props, In (OSend c' (KPublish false qos ret t pl pid props)) o ->
+  exists si c k q, b_now si = b_now s /\ nget c (b_conns si) = Some k /\ aget (k_cid k) (b_queues si) = Some q /\
+                   first_send_ok (b_now s) c k q c' false qos ret t pl props.
+Proof.
+  unfold poll_all.
+  assert (G : forall l s0 o0 s' o,
+             fold_left (fun acc (ck : N * conn) => let '(s0, o0) := acc in
+                                      let '(s', o') := poll_conn 400 (fst ck) s0 in (s', o0 ++ o')) l (s0, o0) = (s', o) ->
+             b_now s' = b_now s0 /\
+             forall c' qos ret t pl pid props, In (OSend c' (KPublish false qos ret t pl pid props)) o ->
+               In (OSend c' (KPublish false qos ret t pl pid props)) o0 \/
+               exists si c k q, b_now si = b_now s0 /\ nget c (b_conns si) = Some k /\ aget (k_cid k) (b_queues si) = Some q /\
+                                first_send_ok (b_now s0) c k q c' false qos ret t pl props).
+  { induction l as [|ck r IH]; intros s0 o0 s1 o1 H; cbn [fold_left] in H.
+    - inversion H; subst. split; [reflexivity|]. intros; now left.
+    - destruct (poll_conn 400 (fst ck) s0) as [s2 o2] eqn:Hc.
+      destruct (poll_conn_first_send _ _ _ _ _ Hc) as (Hnow & Hc2).
+      destruct (IH _ _ _ _ H) as (Hnow2 & IH2). split; [congruence|].
+      intros c' qos ret t pl pid props Hin. destruct (IH2 _ _ _ _ _ _ _ Hin) as [Hin0|(si & c & k & q & Hsi & Hrest)].
+      + apply in_app_or in Hin0. destruct Hin0 as [Hin0|Hin0]; [now left|]. right.
+        destruct (Hc2 _ _ _ _ _ _ _ Hin0) as (si & k & q & Hrest). exists si, (fst ck), k, q. exact Hrest.
+      + right. exists si, c, k, q. rewrite <- Hnow. split; [congruence|exact Hrest]. }
+  intros H. destruct (G _ _ _ _ _ H) as (Hnow & G2). split; [exact Hnow|].
+  intros c' qos ret t pl pid props Hin. destruct (G2 _ _ _ _ _ _ _ Hin) as [[]|Hx]. exact Hx.
+Qed.
+
+(* a step of the model: its output is what the event handler wrote, then what the poll loops wrote *)
+Theorem step_first_send s e s2 o :
+  step s e = (s2, o) ->
+  exists s1 o1 o2, step_event s e = (s1, o1) /\ o = o1 ++ o2 /\ b_now s2 = b_now s1 /\
+  forall c' qos ret t pl pid props, In (OSend c' (KPublish false qos ret t pl pid props)) o2 ->
+  exists si c k q, b_now si = b_now s1 /\ nget c (b_conns si) = Some k /\ aget (k_cid k) (b_queues si) = Some q /\
+                   first_send_ok (b_now s1) c k q c' false qos ret t pl props.
+Proof.
+  unfold step. destruct (step_event s e) as [s1 o1]. destruct (poll_all s1) as [s2' o2] eqn:Hp.
+  intros H. inversion H; subst. exists s1, o1, o2. split; [reflexivity|]. split; [reflexivity|].
+  exact (poll_all_first_send _ _ _ Hp).
+Qed.
+
 (* ------------------------------------------------------------------ *)
 (* 4. witnesses: the hypotheses are satisfiable; what is not checked   *)
 (* ------------------------------------------------------------------ *)
@@ -866,3 +1048,147 @@ Definition x_connack : out :=
 Definition x_msg (p : N) : msg := msg_of_publish true false 1 false x_T [1] 11 [PMsgExpiry p].
 Definition x_subn : sub := {| s_share := []; s_filter := x_T; s_id := 0; s_qos := 1; s_nl := false; s_rap := false; s_rh := 0 |}.
 
+(* add_to_queue_deadline and its corollaries: publisher's interval; capped; default; none *)
+Definition x_s0 (ce : N) : st := fst (run (x_init ce 0) (x_pre 5)).
+Definition x_deadlines (ce p : N) : option (list (option N)) :=
+  option_map (fun q => map (fun e => option_map (fun d => d - e_at e) (e_expiry e)) (q_l q))
+             (aget x_S (b_queues (fst (add_to_queue x_S (x_msg p) x_subn [0] (x_s0 ce))))).
+
+Example x_add_to_queue :
+  (exists q, aget x_S (b_queues (x_s0 0)) = Some q) /\
+  x_deadlines 0 10 = Some [Some 10000] /\ x_deadlines 7200 10 = Some [Some 10000] /\   (* the publisher's interval *)
+  x_deadlines 4 10 = Some [Some 4000] /\                                               (* capped *)
+  x_deadlines 4 0 = Some [Some 4000] /\                                                (* the configured maximum *)
+  x_deadlines 0 0 = Some [None].                                                       (* no deadline *)
+Proof. split; [eexists; vm_compute; reflexivity|]. vm_compute. repeat split. Qed.
+
+(* poll_first_send, poll_expired_reported: "s" is back, its poll loop has finished the replay and taken ids *)
+Definition x_polls (n : nat) (s : st) : st :=
+  Nat.iter n (fun s0 => match poll_once 1 s0 with Some (s', _) => s' | None => s0 end) s.
+Definition x_s2 (v : N) (p : option N) (w ce : N) : st :=
+  x_polls 2 (fst (step_event (fst (run (x_init ce 0) (removelast (x_off v p w)))) (x_back v))).
+
+Definition x_hyps (s : st) : Prop :=
+  exists k q ids, nget 1 (b_conns s) = Some k /\ aget (k_cid k) (b_queues s) = Some q /\
+                  k_drained k = true /\ k_held k = Some ids /\ (length (q_queued q) <= length ids)%nat.
+
+Example x_poll_v5 :
+  x_hyps (x_s2 5 (Some 10) 3500 0) /\
+  option_map snd (poll_once 1 (x_s2 5 (Some 10) 3500 0)) = Some [OSend 1 (KPublish false 1 false x_T [1] 1 [PMsgExpiry 7])].
+Proof. split; [do 3 eexists; vm_compute; repeat split; repeat constructor|vm_compute; reflexivity]. Qed.
+
+(* the configured maximum (4 s) shortens the life of the message, not the interval the subscriber is told *)
+Example x_poll_v5_capped :
+  x_hyps (x_s2 5 (Some 10) 3500 4) /\
+  option_map snd (poll_once 1 (x_s2 5 (Some 10) 3500 4)) = Some [OSend 1 (KPublish false 1 false x_T [1] 1 [PMsgExpiry 7])] /\
+  (exists m, option_map snd (poll_once 1 (x_s2 5 (Some 10) 4500 4)) = Some [ODropped x_S m DExpired]).
+Proof.
+  split; [do 3 eexists; vm_compute; repeat split; repeat constructor|]. split; [vm_compute; reflexivity|].
+  eexists. vm_compute. reflexivity.
+Qed.
+
+Example x_poll_v3 :
+  x_hyps (x_s2 4 (Some 10) 3500 0) /\
+  option_map snd (poll_once 1 (x_s2 4 (Some 10) 3500 0)) = Some [OSend 1 (KPublish false 1 false x_T [1] 1 [])].
+Proof. split; [do 3 eexists; vm_compute; repeat split; repeat constructor|vm_compute; reflexivity]. Qed.
+
+Example x_poll_no_interval :
+  x_hyps (x_s2 5 None 3500 0) /\
+  option_map snd (poll_once 1 (x_s2 5 None 3500 0)) = Some [OSend 1 (KPublish false 1 false x_T [1] 1 [])].
+Proof. split; [do 3 eexists; vm_compute; repeat split; repeat constructor|vm_compute; reflexivity]. Qed.
+
+(* < or <= : at the very millisecond of the deadline the message is still sent (with interval 1: the whole interval
+   has been waited); one millisecond later it is dropped and reported *)
+Example x_poll_at_deadline :
+  x_hyps (x_s2 5 (Some 10) 10000 0) /\
+  option_map snd (poll_once 1 (x_s2 5 (Some 10) 10000 0)) = Some [OSend 1 (KPublish false 1 false x_T [1] 1 [PMsgExpiry 1])] /\
+  x_hyps (x_s2 5 (Some 10) 10001 0) /\
+  (exists m, option_map snd (poll_once 1 (x_s2 5 (Some 10) 10001 0)) = Some [ODropped x_S m DExpired] /\ m_payload m = [1]).
+Proof.
+  split; [do 3 eexists; vm_compute; repeat split; repeat constructor|]. split; [vm_compute; reflexivity|].
+  split; [do 3 eexists; vm_compute; repeat split; repeat constructor|].
+  eexists. vm_compute. split; reflexivity.
+Qed.
+
+(* the same through `run`: the whole scenarios *)
+Example x_run_offline :
+  x_last (snd (run (x_init 0 0) (x_off 5 (Some 10) 3500))) = [x_connack; OSend 1 (KPublish false 1 false x_T [1] 1 [PMsgExpiry 7])] /\
+  (exists m, x_last (snd (run (x_init 0 0) (x_off 5 (Some 10) 10001))) = [x_connack; ODropped x_S m DExpired]).
+Proof. split; [vm_compute; reflexivity|]. eexists. vm_compute. reflexivity. Qed.
+
+(* --- C12_redelivery_after_expiry_refuted (kf_redelivery_after_expiry) ---
+   the message (interval 5 s) is sent to "s" and not acknowledged; "s" goes away and comes back after 61.2 s: the replay
+   (ReadInflight) retransmits it, DUP=1, with interval 1 - 56 s after its deadline.  Whether an in-flight expiry is
+   configured (30 s: the in-flight deadline has passed too) or not *)
+Definition x_redeliv : list event :=
+  x_pre 5 ++ [x_pub 1 11 false [1] [PMsgExpiry 5]; EClose 1; EAdvance 61200; x_back 5].
+
+Example x_redelivery_after_expiry :
+  nth 3 (snd (run (x_init 0 0) x_redeliv)) [] = [OSend 2 (KPuback 11 0 []); OSend 1 (KPublish false 1 false x_T [1] 1 [PMsgExpiry 5])] /\
+  x_last (snd (run (x_init 0 0) x_redeliv)) = [x_connack; OSend 1 (KPublish true 1 false x_T [1] 1 [PMsgExpiry 1])] /\
+  x_last (snd (run (x_init 7200 30) x_redeliv)) = [x_connack; OSend 1 (KPublish true 1 false x_T [1] 1 [PMsgExpiry 1])].
+Proof. vm_compute. repeat split. Qed.
+
+(* the state in which it happens: the replay turn of the poll loop (k_drained = false) meets an in-flight element whose
+   deadline has passed, and sends it *)
+Definition x_s_redeliv : st := fst (step_event (fst (run (x_init 0 0) (removelast x_redeliv))) (x_back 5)).
+Example x_redelivery_poll :
+  option_map (fun k => (k_cid k, k_drained k)) (nget 1 (b_conns x_s_redeliv)) = Some (x_S, false) /\
+  option_map (fun q => map (fun e => (e_id e, e_expiry e, expired (b_now x_s_redeliv) e)) (q_l q)) (aget x_S (b_queues x_s_redeliv))
+    = Some [(1, Some (b_now x_s_redeliv - 56200), true)] /\
+  option_map snd (poll_once 1 x_s_redeliv) = Some [OSend 1 (KPublish true 1 false x_T [1] 1 [PMsgExpiry 1])].
+Proof. vm_compute. repeat split. Qed.
+
+(* at the level of the queue: ReadInflight hands out an expired element *)
+Example x_read_inflight_expired :
+  let e := {| e_tag := 1; e_at := 0; e_expiry := Some 5000; e_body := QPub (set_pid 1 (xm 1)) |} in
+  let q := q_set [e] 0 false (q_init false true 1000 (q_new 10 0)) in
+  expired 61200 e = true /\ snd (q_read_inflight 61200 10 q) = [e].
+Proof. vm_compute. split; reflexivity. Qed.
+
+(* --- C12_expiry_zero_is_absent (kf_expiry_zero_treated_as_absent) ---
+   Message Expiry Interval 0 with no configured maximum: the element has no deadline, so it is never expired ... *)
+Theorem expiry_zero_is_absent m s_ ids s :
+  m_expiry m = 0 -> c_message_expiry (b_cfg s) = 0 ->
+  e_expiry (atq_elem m s_ ids s) = None /\ forall now, expired now (atq_elem m s_ ids s) = false.
+Proof.
+  intros Hm Hc. assert (H : e_expiry (atq_elem m s_ ids s) = None) by (apply atq_deadline_none; auto).
+  split; [exact H|]. now apply no_deadline_never_expired.
+Qed.
+
+(* ... a PUBLISH with the property set to 0 is the same message as one without the property ... *)
+Lemma msg_of_publish_expiry_zero v5 dup qos retain topic payload pid :
+  msg_of_publish v5 dup qos retain topic payload pid [PMsgExpiry 0] = msg_of_publish v5 dup qos retain topic payload pid [].
+Proof. unfold msg_of_publish. destruct v5; reflexivity. Qed.
+
+(* ... and it is delivered, without the property, after 50 000 000 seconds (1.5 years) of waiting; with a configured
+   maximum of 4 s it gets the lifetime of a message without interval *)
+Example x_expiry_zero :
+  x_last (snd (run (x_init 0 0) (x_off 5 (Some 0) 50000000000))) = [x_connack; OSend 1 (KPublish false 1 false x_T [1] 1 [])] /\
+  x_last (snd (run (x_init 0 0) (x_off 5 None 50000000000))) = [x_connack; OSend 1 (KPublish false 1 false x_T [1] 1 [])] /\
+  x_last (snd (run (x_init 4 0) (x_off 5 (Some 0) 3500))) = [x_connack; OSend 1 (KPublish false 1 false x_T [1] 1 [])] /\
+  x_deadlines 4 0 = Some [Some 4000].
+Proof. vm_compute. repeat split. Qed.
+
+(* --- retained messages: replay_step_deadline ---
+   the retained store keeps no time: a retained message published with interval 5 s is given to a subscriber that
+   arrives an hour later, with the full interval; the configured maximum is not applied either *)
+Definition x_retained (ce w : N) : list event :=
+  [EConnect 2 (x_connect 5 x_P true []); x_pub 0 0 true [1] [PMsgExpiry 5]; EAdvance w;
+   EConnect 3 (x_connect 5 x_R true []); ESend 3 (KSubscribe 1 [] [x_treq 1])].
+
+Example x_retained_never_expires :
+  x_last (snd (run (x_init 0 0) (x_retained 0 3600000))) =
+    [OSend 3 (KSuback 1 [1] []); OSend 3 (KPublish false 0 false x_T [1] 0 [PMsgExpiry 5])] /\
+  x_last (snd (run (x_init 2 0) (x_retained 2 3600000))) =
+    [OSend 3 (KSuback 1 [1] []); OSend 3 (KPublish false 0 false x_T [1] 0 [PMsgExpiry 5])].
+Proof. vm_compute. repeat split. Qed.
+
+Definition x_s_ret : st := fst (run (x_init 2 0) (removelast (x_retained 2 3600000))).
+Definition x_m_ret : msg := hd (xm 0) (rdb_matched x_T (b_ret x_s_ret)).
+Example x_replay_step :
+  (exists q, aget x_R (b_queues x_s_ret) = Some q) /\ rdb_matched x_T (b_ret x_s_ret) = [x_m_ret] /\ m_expiry x_m_ret = 5 /\
+  option_map (fun q => map (fun e => (e_at e, e_expiry e)) (q_l q))
+             (aget x_R (b_queues (fst (rr_step x_R x_subn (x_s_ret, []) x_m_ret)))) =
+    Some [(b_now x_s_ret, Some (b_now x_s_ret + 5000))].
+Proof. split; [eexists; vm_compute; reflexivity|]. vm_compute. repeat split. Qed.
